@@ -39,6 +39,7 @@ func c01Prods(extra bool) []enum.Prod {
 		leaf("(t! 0)", form("t!", model.Int(0))), leaf("(t! 1)", form("t!", model.Int(1))),
 		leaf("(do)", form("do")), leaf("(list)", form("list")), leaf("'a", form("quote", sym("a"))),
 		leaf("false", model.Bool(false)),
+		leaf("1.5", model.Opaque("float32")), // a float: evaluates to itself, and is no integer for + and <
 	}
 	if extra {
 		ps = append(ps, leaf("f", sym("f")), leaf("2", model.Int(2)))
